@@ -567,6 +567,12 @@ func init() {
 		Shrink: func(spec json.RawMessage) []json.RawMessage {
 			sp := c09Parse(spec)
 			var out []json.RawMessage
+			if big := c09ShrinkBig(sp); big != nil { // large tables: halves first (c09_r6.go)
+				for _, c := range big {
+					out = append(out, mustJSON(c))
+				}
+				return out
+			}
 			with := func(f func(c *C09Spec)) {
 				c := sp
 				f(&c)
